@@ -34,6 +34,15 @@ class LayerPaths:
         self.dir_values = dir_values   # extra predicates recognising the layer dir itself (e.g. a `path` field)
 
     def classify(self, v, depth=0):
+        r = self._base(v, depth)
+        if r is None and depth == 0 and SLICER is not None and v is not None:
+            # private path constructors nested anywhere in the value (`LayerPaths::new(dir, name).toml`) are transparent
+            iv = SLICER.inline_deep(v, keep=(LayerPaths.sbom_path_fn,))
+            if iv != v:
+                r = self.classify(iv, 1)
+        return r
+
+    def _base(self, v, depth=0):
         if v is None or depth > 12:
             return None
         v = strip(v)
@@ -45,6 +54,16 @@ class LayerPaths:
         for p in self.dir_values:
             if p(v):
                 return ('DIR',)
+        if v[0] == 'field' and SLICER is not None and depth < 6:
+            # `Paths::new(dir, name).toml`: only the constructor on the spine of the path is opened, its arguments stay as
+            # the caller wrote them
+            b = strip(v[1])
+            if b[0] == 'call':
+                ib = SLICER.inline_call(b)
+                if ib is not None and ib != b:
+                    fv = SLICER._field(strip(ib), v[2])
+                    if fv is not None:
+                        return self.classify(fv, depth + 1)
         if v[0] == 'call':
             name, args = v[1], v[2]
             if name in JOIN and len(args) == 2:
